@@ -214,8 +214,10 @@ def run_transitions(ctx, desc):
                     rig.send_tpdo()                       # the master knows the current statusword
                     if ticked:
                         # the master must have received a statusword before the call (until then it reads 0)
-                        for _ in range(5000):
-                            if rig.node.tpdo[1].timestamp is not None:
+                        for _ in range(20000):
+                            # (judged by what the library will read - its cached statusword - not by the map's time stamp,
+                            # which is set a little earlier inside the same critical section)
+                            if rig.node.tpdo[1].timestamp is not None and rig.node.tpdo_values.get(0x6041) == drive.statusword():
                                 break
                             time.sleep(0.001)
                         else:
